@@ -84,8 +84,12 @@ Proof. exact c08_fwd_compute_own_rows. Qed.
 
 (* the executable oracle evaluated on the implementation's output means exactly the statement about
    the observed schedule (tight from the release day computed from the prerequisite leaves' observed
-   ends; dates encode the shares when the clock is not later than the project start; first rows of
-   unlinked leaves in WBS order) *)
+   ends; dates encode the shares when the clock is not later than the project start - for a free leaf
+   WITHOUT usage rows (no work left) c08_norows: its start day has capacity, balancing off: the start is
+   that day's midnight, balancing on: the start encodes the share of that day booked by some prefix of
+   rows() (the moment the task was placed), hence at most the share booked there in the whole schedule;
+   the end is the start, or the project start when that is later; first rows of unlinked leaves in WBS
+   order) *)
 Theorem C08_oracle_sound : forall cfg w o t, c08_task_b cfg w o t = true -> c08_task_statement cfg w o t.
 Proof. exact c08_task_b_sound. Qed.
 
